@@ -116,7 +116,14 @@ class C01(Check):
             node, table = M.resolve(case["schema"])
             return gen.schema_has_ambiguous_union_default(node, table)
 
-        return {"ambiguous_union_default": ambiguous_union_default}
+        def bytes_default(case, message):
+            node, table = M.resolve(case["schema"])
+            return any(
+                "default" in f and M.deref(f["type"], table)["k"] in ("bytes", "fixed")
+                for d in table.values() if d["k"] == "record" for f in d["fields"]
+            )
+
+        return {"ambiguous_union_default": ambiguous_union_default, "bytes_default": bytes_default}
 
 
 CHECK = C01()
